@@ -145,6 +145,9 @@ def seam_check(sc, sp, V, extra, ctx, part, bad):
 def run(report, tier):
     apirun.run_config(report, 'MC_C10', observer=observer, report_kinds=('C', 'CL'))
     apirun.run_config(report, 'MC_C10M', observer=observer, report_kinds=('C', 'CL'))
+    if tier == 'thorough':      # two expression-building calls before the comparison, reduced literal alphabet
+        apirun.run_config(report, 'MC_C10', observer=observer, report_kinds=('C', 'CL'), tag='deep',
+                          overrides={'MaxCalls': 3, 'ScalarLits': '<-MC_ScalarLitsSmall', 'ArrayLits': '<-MC_ArrayLitsSmall', 'Senses': '<-MC_SensesSmall'})
     return report.finish(
         rule='every Api program of <= MaxCalls calls over the C10 signature ending in a comparison (scalar / vector / vector-expression '
              'lhs x Python and NumPy scalars, parameters, expressions, vectors, lists, 1-D and 2-D arrays x three senses x reflected): '
